@@ -92,7 +92,12 @@ impl<T> Receiver<T> {
             {
                 unreachable!()
             }
-            Err(_) if self.rx.is_abandoned() => Err(ChannelClosed),
+            Err(_) if self.rx.is_abandoned() => match self.rx.pop() {
+                // The producer may have pushed its last messages between the failed `pop` and
+                // the `is_abandoned` check, so look once more before closing the channel.
+                Ok(val) => Ok(Some(val)),
+                Err(_) => Err(ChannelClosed),
+            },
             Err(_) => Ok(None),
         }
     }
